@@ -1295,7 +1295,10 @@ func selectLiteralStrategy(literals *literal.Seq, litAnalysis literalAnalysis) S
 	// Patterns with >32 literals exceed Teddy's capacity but Aho-Corasick handles
 	// thousands of patterns with O(n) matching time.
 	// Speedup: 50-500x by using dense array transitions (~1.6 GB/s throughput).
-	if litAnalysis.hasAhoCorasickLiterals && literals.AllComplete() {
+	// Like Teddy, the automaton answers from the literals alone and never
+	// evaluates ^, $, \b, \B, \A or \z: \b[0-9][0-9] (100 literals) matched "91"
+	// inside "a91".
+	if litAnalysis.hasAhoCorasickLiterals && literals.AllComplete() && !litAnalysis.hasAnchors {
 		return UseAhoCorasick
 	}
 
